@@ -135,6 +135,31 @@ class TrS:
                 if ta == tb == 'str':
                     self.uses_resolve = True
                     return "(resolve %s %s)" % (a, b), 'str'
+            if isinstance(f, ast.Name) and isinstance(self.consts.get(f.id), tuple) and self.consts[f.id][0] == 'func':
+                # a function of the same module that was itself translated: monadic call, bound before the statement (so not under a lazy operator)
+                _, lname, ptypes, rty = self.consts[f.id][:4]
+                defaults = self.consts[f.id][4] if len(self.consts[f.id]) > 4 else {}
+                names = [p for p, _ in ptypes]
+                given = list(n.args) + [None] * (len(ptypes) - len(n.args))
+                for kw in n.keywords:
+                    if kw.arg not in names or given[names.index(kw.arg)] is not None:
+                        raise Untranslatable("call with unknown / repeated keyword " + str(kw.arg))
+                    given[names.index(kw.arg)] = kw.value
+                given = [g if g is not None else defaults.get(pn) for g, (pn, _) in zip(given, ptypes)]      # constant defaults of the callee
+                if len(n.args) > len(ptypes) or any(g is None for g in given):
+                    raise Untranslatable("call of %s without all arguments (and no constant default)" % f.id)
+                if self.lazy_depth:
+                    raise Untranslatable("function call under a lazily evaluated operator")
+                cargs = []
+                for g, (pn, pt) in zip(given, ptypes):
+                    c, t = self.expr(g)
+                    if t != pt:
+                        raise Untranslatable("argument %s of %s: %s for %s" % (pn, f.id, t, pt))
+                    cargs.append(c)
+                self.fresh += 1
+                v = "r_%d" % self.fresh
+                self.hoist.append("let %s ← %s %s" % (v, lname, " ".join(cargs)))
+                return v, rty
             if isinstance(f, ast.Attribute) and f.attr == 'search' and isinstance(f.value, ast.Name) and len(n.args) == 1 and not n.keywords \
                     and isinstance(self.consts.get(f.value.id), tuple) and self.consts[f.value.id][0] == 'charclass':
                 x, tx = self.expr(n.args[0])
@@ -201,6 +226,25 @@ class TrS:
             if isinstance(s, ast.If) and TrS.terminates(s.body) and TrS.terminates(s.orelse):
                 return True
         return False
+
+    @staticmethod
+    def iteration_local(stmts, cont_term=False):
+        """loop body whose assignments cannot outlive the iteration: after every assignment all paths return / raise before the body ends
+        (`if c: r = f(x); if flag: r = g(r); return r`); tests, returns and raises are free"""
+        for k, s in enumerate(stmts):
+            rest_term = TrS.terminates(stmts[k + 1:]) or cont_term
+            if isinstance(s, (ast.Return, ast.Raise)) or (isinstance(s, ast.Expr) and isinstance(s.value, ast.Constant)):
+                continue
+            if isinstance(s, ast.Assign) and len(s.targets) == 1 and isinstance(s.targets[0], ast.Name):
+                if not rest_term:
+                    return False
+                continue
+            if isinstance(s, ast.If):
+                if not (TrS.iteration_local(s.body, rest_term) and TrS.iteration_local(s.orelse, rest_term)):
+                    return False
+                continue
+            return False
+        return True
 
     @staticmethod
     def find_first(s, tail):
@@ -278,6 +322,17 @@ class TrS:
         if isinstance(s, ast.Return) and isinstance(s.value, ast.IfExp):
             # `return a if c else b` is `if c: return a` / `else: return b` (so that a None test narrows and x[i] / d[k] stay in their branch)
             s = ast.If(test=s.value.test, body=[ast.Return(value=s.value.body)], orelse=[ast.Return(value=s.value.orelse)])
+        if isinstance(s, ast.Assign) and len(s.targets) == 1 and isinstance(s.targets[0], ast.Name) and isinstance(s.value, ast.Constant) \
+                and s.value.value is None and len(tail) >= 2 and isinstance(tail[1], ast.For) and isinstance(tail[0], ast.Assign) \
+                and len(tail[0].targets) == 1 and isinstance(tail[0].targets[0], ast.Name) and tail[0].targets[0].id != s.targets[0].id \
+                and not any(isinstance(x, ast.Name) and x.id == s.targets[0].id for x in ast.walk(tail[0].value)):
+            # `v = None; w = e; for ...`: the two assignments commute (e does not mention v); moving `v = None` next to its loop lets the
+            # find-first idiom be recognised
+            s, tail = tail[0], [s] + list(tail[1:])
+        if isinstance(s, ast.Assign) and len(s.targets) == 1 and isinstance(s.targets[0], ast.Name) and isinstance(s.value, ast.IfExp):
+            # `x = a if c else b` is `if c: x = a` / `else: x = b` (calls and x[i] stay in their branch)
+            s = ast.If(test=s.value.test, body=[ast.Assign(targets=s.targets, value=s.value.body)],
+                       orelse=[ast.Assign(targets=s.targets, value=s.value.orelse)])
         ff = self.find_first(s, tail)
         if ff is not None:
             var, key, dct, conds = ff
@@ -305,8 +360,8 @@ class TrS:
             it = s.iter
             if not isinstance(s.target, ast.Name) or s.orelse:
                 raise Untranslatable("loop with a pattern target or an else clause")
-            if self.assigned(s.body) - {None} or not self.only_tests_and_exits(s.body):
-                raise Untranslatable("loop body assigns or does more than test / return / raise")
+            if not self.iteration_local(s.body):
+                raise Untranslatable("loop body assigns a variable that outlives the iteration, or does more than test / assign / return / raise")
             if isinstance(it, ast.Call) and isinstance(it.func, ast.Name) and it.func.id == 'range' and len(it.args) == 1:
                 n_e, n_t = self.expr(it.args[0])
                 if n_t != 'int':
@@ -314,8 +369,10 @@ class TrS:
                 loop, var_t = "PyOps.forRange %s" % n_e, 'int'
             else:
                 n_e, n_t = self.expr(it)
+                if n_t == 'strdict':          # iterating a dictionary yields its keys, in insertion order
+                    n_e, n_t = "(List.map Prod.fst %s)" % n_e, 'strlist'
                 if n_t != 'strlist':
-                    raise Untranslatable("loop other than `for i in range(e)` / `for x in <list of strings>`")
+                    raise Untranslatable("loop other than `for i in range(e)` / `for x in <list of strings>` / `for k in <dict of strings>`")
                 loop, var_t = "PyOps.forEach %s" % n_e, 'str'
             head = self.flush("")
             var = s.target.id
@@ -333,7 +390,7 @@ class TrS:
             return "%slet %s ← %s (fun %s => do\n  %s)\n  match %s with\n  | some v => pure v\n  | none => (do\n  %s)" % (
                 head, r, loop, var, body, r, self.block(tail, ret))
         if isinstance(s, ast.Expr) and isinstance(s.value, ast.Constant):
-            return self.block(tail, ret)
+            return self.block(tail, ret, in_loop)
         if isinstance(s, ast.Return):
             e, t = self.expr(s.value) if s.value is not None else ("none", 'optstr')
             if ret == 'optstr' and t == 'str':
@@ -352,10 +409,8 @@ class TrS:
             v = s.targets[0].id
             if v in self.env and self.env[v] != t:
                 raise Untranslatable("assignment changes the type of " + v)
-            self.env[v] = t
-            if in_loop:
-                raise Untranslatable("assignment inside a loop body")
-            return self.flush("let %s := %s\n  " % (v, e)) + self.block(tail, ret)
+            self.env[v] = t       # inside a loop body only iteration-local assignments get here (checked at the `for`)
+            return self.flush("let %s := %s\n  " % (v, e)) + self.block(tail, ret, in_loop)
         if isinstance(s, ast.If):
             nar = self.narrowing(s.test)
             if nar is not None and in_loop:
@@ -374,12 +429,12 @@ class TrS:
                         self.env[name] = old
                 return "match %s with\n  | some %s => (do\n  %s)\n  | none => (do\n  %s)" % (name, name, branch(some_b, True), branch(none_b, False))
             a = self.assigned([s])
-            if None not in a and len(a) == 1 and not self.terminates([s]):
+            both = len(a) == 1 and None not in a and next(iter(a)) not in self.env and len(s.body) == 1 and len(s.orelse) == 1 \
+                and isinstance(s.body[0], ast.Assign) and isinstance(s.orelse[0], ast.Assign)      # first assignment in both branches: general path
+            if None not in a and len(a) == 1 and not self.terminates([s]) and not in_loop and not both:
                 var = next(iter(a))
                 if var not in self.env:
                     raise Untranslatable("conditional first assignment of " + var)
-                if in_loop:
-                    raise Untranslatable("assignment inside a loop body")
                 n_h = len(self.hoist)
                 re_e = self.reassign([s], var)
                 if len(self.hoist) != n_h:
